@@ -3,7 +3,7 @@
    (Spec/QuinnApi.v: an oracle).  The match arms of the conversion functions and the decision points of
    the state machines are read from Gen.GenQuinn (regenerated from the Rust source on every run).
 
-   Panic sites: 30-33 conversion tables (33 = the `panic!` arm for IllegalOrderedRead), 40 send_id
+   Panic sites: 30-33 conversion tables (33 = the `panic!` arm for IllegalOrderedRead; 34 = an open/accept/close wrapper not recognised), 40 send_id
    `expect("invalid stream id")`, 41 poll_send while writing, 50 RecvStream::new `expect`, 51 the initial
    `unreachable!()` future polled, 52 the read future polled after completion, 53 stop_sending
    `expect("invalid error_code")`, 54 recv_id `unwrap` on a moved-out stream, 55 recv_id `expect`,
@@ -255,26 +255,27 @@ Definition send_reset (code : N) (s : send_stream) : res unit unit * send_stream
 Definition send_id (s : send_stream) : res unit N :=
   match sid_try_from (qs_id (s_q s)) with Some id => Ok id | None => Panic 40 end.
 
-(* fn poll_send (SendStreamUnframed): one poll_write of buf.chunk() *)
-Definition poll_send (o : list wanswer) (buf : wbuf) (s : send_stream)
+(* fn poll_send (SendStreamUnframed): one poll_write of buf.chunk(); `guard` = the
+   `if self.writing.is_some() { panic!(..) }` block is present (without it the raw bytes go out while the
+   framed buffer is half written) *)
+Definition poll_send_with (guard : bool) (o : list wanswer) (buf : wbuf) (s : send_stream)
   : poll (sres N) * send_stream * wbuf * list wanswer :=
-  match s_writing s with
-  | Some _ => (Ready (Panic 41), s, buf, o)
-  | None =>
-      match o with
-      | [] => (Pending, s, buf, [])
-      | WBlocked :: o' => (Pending, s, buf, o')
-      | WFail e :: o' => (Ready (of_conv (convert_write_error e)), s, buf, o')
-      | WAccept k :: o' =>
-          let c := wb_chunk buf in
-          let written := N.min k (len c) in
-          let s' := {| s_q := q_accept (s_q s) (firstn (N.to_nat written) c); s_writing := None |} in
-          match wb_advance written buf with
-          | None => (Ready (Panic 57), s', buf, o')
-          | Some buf' => (Ready (Ok written), s', buf', o')
-          end
-      end
-  end.
+  if (match s_writing s with Some _ => guard | None => false end) then (Ready (Panic 41), s, buf, o)
+  else
+    match o with
+    | [] => (Pending, s, buf, [])
+    | WBlocked :: o' => (Pending, s, buf, o')
+    | WFail e :: o' => (Ready (of_conv (convert_write_error e)), s, buf, o')
+    | WAccept k :: o' =>
+        let c := wb_chunk buf in
+        let written := N.min k (len c) in
+        let s' := {| s_q := q_accept (s_q s) (firstn (N.to_nat written) c); s_writing := s_writing s |} in
+        match wb_advance written buf with
+        | None => (Ready (Panic 57), s', buf, o')
+        | Some buf' => (Ready (Ok written), s', buf', o')
+        end
+    end.
+Definition poll_send := poll_send_with poll_send_guard.
 
 (* a program over one send stream *)
 Inductive send_op :=
@@ -282,13 +283,15 @@ Inductive send_op :=
 | OPollReady
 | OPollFinish
 | OReset (code : N)
-| OSendId.
+| OSendId
+| OPollSend (buf : wbuf).
 
 Inductive send_result :=
 | SRUnit (r : sres unit)            (* send_data *)
 | SRPoll (r : poll (sres unit))     (* poll_ready, poll_finish *)
 | SRId (r : res unit N)
-| SRNone (r : res unit unit).       (* reset *)
+| SRNone (r : res unit unit)        (* reset *)
+| SRSend (r : poll (sres N)).      (* poll_send *)
 
 Definition send_step (op : send_op) (s : send_stream) (o : list wanswer) : send_result * send_stream * list wanswer :=
   match op with
@@ -297,6 +300,7 @@ Definition send_step (op : send_op) (s : send_stream) (o : list wanswer) : send_
   | OPollFinish => let '(r, s') := poll_finish s in (SRPoll r, s', o)
   | OReset c => let '(r, s') := send_reset c s in (SRNone r, s', o)
   | OSendId => (SRId (send_id s), s, o)
+  | OPollSend buf => let '(r, s', _, o') := poll_send o buf s in (SRSend r, s', o')
   end.
 
 Fixpoint send_run (ops : list send_op) (s : send_stream) (o : list wanswer)
@@ -428,6 +432,24 @@ Definition underlying (r : recv_stream) : option qrecv :=
 
 Record bidi_stream := { b_send : send_stream; b_recv : recv_stream }.
 
+(* the two `impl quic::OpenStreams`: for Connection itself and for the OpenStreams handle that
+   `Connection::opener()` returns (and its clones) - the one h3's client and server really use *)
+Inductive opener_impl := ViaConnection | ViaOpener.
+
+(* a wrapper whose whole body was recognised by the translator passes Quinn's ConnectionError through
+   convert_connection_error *)
+Definition site_error (site : N) (e : qconn_err) : res unit h3_conn_err :=
+  match assoc site site_converts with
+  | Some true => convert_connection_error e
+  | _ => Panic 34
+  end.
+Definition open_bidi_site (w : opener_impl) : N :=
+  match w with ViaConnection => site_conn_poll_open_bidi | ViaOpener => site_opener_poll_open_bidi end.
+Definition open_send_site (w : opener_impl) : N :=
+  match w with ViaConnection => site_conn_poll_open_send | ViaOpener => site_opener_poll_open_send end.
+Definition close_site (w : opener_impl) : N :=
+  match w with ViaConnection => site_conn_close | ViaOpener => site_opener_close end.
+
 (* poll_open_bidi / poll_accept_bidi once Quinn's open_bi()/accept_bi() future has an answer *)
 Definition bidi_new (id : N) : res unit bidi_stream :=
   match recv_new (qrecv_new id) with
@@ -435,30 +457,33 @@ Definition bidi_new (id : N) : res unit bidi_stream :=
   | Err u => Err u
   | Panic p => Panic p
   end.
-Definition open_bidi (a : res qconn_err N) : sres bidi_stream :=
+Definition open_bidi (w : opener_impl) (a : res qconn_err N) : sres bidi_stream :=
   match a with
   | Ok id => match bidi_new id with Ok b => Ok b | Err _ => Panic 32 | Panic p => Panic p end
-  | Err e => of_conv (lift_conn (convert_connection_error e))
+  | Err e => of_conv (lift_conn (site_error (open_bidi_site w) e))
   | Panic p => Panic p
   end.
-Definition open_send (a : res qconn_err N) : sres send_stream :=
+Definition open_send (w : opener_impl) (a : res qconn_err N) : sres send_stream :=
   match a with
   | Ok id => Ok (send_new (qsend_new id))
-  | Err e => of_conv (lift_conn (convert_connection_error e))
+  | Err e => of_conv (lift_conn (site_error (open_send_site w) e))
   | Panic p => Panic p
   end.
 Definition accept_recv (a : res qconn_err N) : res h3_conn_err recv_stream :=
   match a with
   | Ok id => match recv_new (qrecv_new id) with Ok r => Ok r | Err _ => Panic 32 | Panic p => Panic p end
-  | Err e => match convert_connection_error e with Ok c => Err c | Err _ => Panic 32 | Panic p => Panic p end
+  | Err e => match site_error site_conn_poll_accept_recv e with Ok c => Err c | Err _ => Panic 32 | Panic p => Panic p end
   | Panic p => Panic p
   end.
 Definition accept_bidi (a : res qconn_err N) : res h3_conn_err bidi_stream :=
   match a with
   | Ok id => match bidi_new id with Ok b => Ok b | Err _ => Panic 32 | Panic p => Panic p end
-  | Err e => match convert_connection_error e with Ok c => Err c | Err _ => Panic 32 | Panic p => Panic p end
+  | Err e => match site_error site_conn_poll_accept_bidi e with Ok c => Err c | Err _ => Panic 32 | Panic p => Panic p end
   | Panic p => Panic p
   end.
 (* fn close: the code Quinn is given *)
-Definition conn_close (code : N) : res unit N :=
-  if varint_max <? code then Panic 56 else Ok code.
+Definition conn_close (w : opener_impl) (code : N) : res unit N :=
+  match assoc (close_site w) site_converts with
+  | Some true => if varint_max <? code then Panic 56 else Ok code
+  | _ => Panic 34
+  end.
